@@ -12,7 +12,9 @@ TRACE = ("Trace_BlockRelay_C11", "Trace_BlockRelay_C11.cfg")
 
 
 def driver(scenarios, tag):
-    wd = 3000
+    # bounded wait for the preparation goroutine to have called every node (only ever expires when a
+    # node is not called at all); longer on the confirming re-runs
+    wd = 1500
     if tag.startswith("confirm"):
         wd = 8000
     return vf.run_driver(PID, PKG, TEST, scenarios, tag, env={"VERIF_WATCHDOG_MS": wd}, timeout=1500)
@@ -59,11 +61,14 @@ def scenarios(tier):
     matrix = vf.tlc_scenarios(PID, "Scen_BlockRelay_C11",
                               "Scen_BlockRelay_C11_matrix.cfg" if quick else "Scen_BlockRelay_C11_matrix_big.cfg",
                               exhaustive=True, name="scen-matrix", timeout=900)
+    history = vf.tlc_scenarios(PID, "Scen_BlockRelay_C11",
+                               "Scen_BlockRelay_C11_history.cfg" if quick else "Scen_BlockRelay_C11_history_big.cfg",
+                               exhaustive=True, name="scen-history", timeout=900)
     if quick:
         rnd = random.Random(vf.seed())
         rnd.shuffle(matrix)
         matrix = matrix[:120]
-    hs = matrix + sim
+    hs = matrix + history + sim
     return [{"sc": i + 1, "steps": h} for i, h in enumerate(hs)]
 
 
@@ -81,7 +86,8 @@ def run(tier):
     sc = scenarios(tier)
     vf.conformance(v, sc, driver, TRACE[0], TRACE[1], sig_of, nontrivial, tlc_timeout=1500, chunk=150)
     v.coverage["rule"] = ("input sequences defined by Scen_BlockRelay_C11.tla: every failure combination of one round per "
-                          "document (enumerated) and TLC-simulated histories of fetches / rounds / preparations / REST "
+                          "document and every sequence of three configuration changes with a round after each (enumerated), "
+                          "and TLC-simulated histories of fetches / rounds / preparations / REST "
                           "registrations (seeded), replayed on the real block relay and proposal preparer; non-trivial = "
                           "something was submitted and the scenario has a failure, an unresolvable validator or a second round; "
                           "distinct by step list")
